@@ -963,4 +963,16 @@ theorem serialWalk_toast (depth : Nat) (acc : Pos → Bool) :
     exact genToast_eq_trav depth acc
   exact walk_of_run (yldRoot acc) depth Pos.root (by simp [valid, Pos.root]) (Nat.zero_le _) (by simp [yldRoot, Pos.root]) [] _ hg
 
+/-! ### non-vacuity -/
+
+/-- the leaf counter of a generic pyramid of depth 2, run through the iterator model, ends with 16 -/
+example : (match runRed 2 Pos.root 0 fLeaf (genPos 2) (RState.init 0) with
+    | .ok (ys, sf) => some (ys.length, sf.final, sf.active)
+    | .error _ => none) = some (21, 16, false) := by decide
+
+/-- a filtered TOAST pyramid of depth 2 accepting (1,1,0) and its child (2,2,1): serial walk = [(1,1,0), root] -/
+example : (match serialWalk 2 Pos.root (some (fun p => p == ⟨1, 1, 0⟩ || p == ⟨2, 2, 1⟩)) with
+    | .ok l => some l
+    | .error _ => none) = some [⟨1, 1, 0⟩, ⟨0, 0, 0⟩] := by decide
+
 end Red
